@@ -89,6 +89,9 @@ func verifyFunc(w *world, fn *ssa.Function, lite bool, depth int, exclude []stri
 			g.maxDepth = depth
 		}
 		g.loopHavocAll = havocLoops
+		if c := w.contractOf(fn); c != nil && c.absDivMod {
+			g.absDivMod = true
+		}
 		fc = g.newFnCtx(fn, "", 0, nil)
 		fc.bindParamsFresh()
 		fc.run()
